@@ -120,6 +120,11 @@ def _setup(scn, root):
                 with open(os.path.join(dest, name + sfx), 'wb') as f:
                     f.write(t.encode('utf-8'))
                 os.utime(os.path.join(dest, name + sfx), (core.EPOCH0 - 1000, core.EPOCH0 - 1000))
+        if scn.get('blockdir') and scn['dest'] != 'missing':
+            # a directory sits where a module's file should go: the final rename cannot succeed
+            _, sfx2 = writer_for(scn['writer'], dest)
+            for name in scn['blockdir']:
+                os.makedirs(os.path.join(dest, name + sfx2), exist_ok=True)
         if scn.get('leftovers') and scn['dest'] != 'missing':
             # temporary files of an earlier, interrupted run: not ours to judge, and not to be touched by a dry run
             for fn_, age_ in LEFTOVERS:
@@ -473,6 +478,9 @@ def base_scenarios(tier):
                 bases.append({'writer': wk, 'dest': 'populated', 'prior': {'MOD-A': {'size': 99, 'kind': 'utf8'}}, 'has_comments': True,
                               'ops': [{'name': 'MOD-A', 'size': size, 'kind': kind, 'comments': ['generated', 'by sim']}]})
             bases.append({'writer': wk, 'dest': 'empty', 'ops': [{'name': 'MOD-A', 'size': 300, 'kind': 'pybad' if wk.startswith('py') else 'ascii'}]})
+    for wk in WRITERS:
+        # a directory sits where the module's file should go
+        bases.append({'writer': wk, 'dest': 'empty', 'blockdir': ['MOD-A'], 'ops': [{'name': 'MOD-A', 'size': 100, 'kind': 'ascii'}]})
     return bases
 
 
@@ -522,6 +530,8 @@ def generate(rng, tier):
     scn = {'writer': wk, 'dest': dest, 'listing_seed': rng.randrange(1 << 30)}
     if dest != 'missing' and rng.random() < 0.25:
         scn['leftovers'] = True
+    if dest == 'empty' and rng.random() < 0.06:
+        scn['blockdir'] = ['MOD-B']
     if dest == 'populated':
         scn['prior'] = {n: {'size': rng.choice([1, 37, 150, 5000]), 'kind': rng.choice(['ascii', 'utf8'])} for n in names if rng.random() < 0.8}
 
